@@ -148,6 +148,15 @@ def run(ctx: Ctx) -> dict:
                 api_ops.append({"op": rng.choice(("iban.new", "iban.validate")), "t": cps(iban), "vb": True})
                 if rng.random() < 0.2:
                     api_ops.append({"op": "bban.nat", "t": cps(iban)})
+    # the method is the one of the GERMAN bank with that code, whatever other countries' IBANs with the
+    # same digits in their bank fields (Poland's key is 8 digits too) were looked at before
+    for code in rng.sample(codes, 10) + ["71180005", "37040044"]:
+        pl = code + "".join(rng.choice("0123456789") for _ in range(16))
+        api_ops.append({"op": "iban.new", "t": cps("PL" + gen.check_digits("PL", pl) + pl), "vb": True})
+        acct = "".join(rng.choice("0123456789") for _ in range(10))
+        for v in with_every_check_digit(acct, banks.get(code, "00")):
+            b = code + v
+            api_ops.append({"op": "iban.new", "t": cps("DE" + gen.check_digits("DE", b) + b), "vb": True})
     # one account per PATH CLASS of every method (c14.path_class_accounts), asked directly and through
     # the IBAN of a bank that uses the method: the rare branches (remainder 1, sub-account variants ...)
     import c14
